@@ -518,7 +518,8 @@ pub fn run(id: &str, tier: Tier) -> i32 {
         let _ = mon_handle.join();
     });
     let mut stats = std::mem::take(&mut *sh.stats.lock().unwrap());
-    let crashes = std::mem::take(&mut *sh.crashes.lock().unwrap());
+    let mut crashes = std::mem::take(&mut *sh.crashes.lock().unwrap());
+    crashes.sort_by(|a, b| (a.key.len(), &a.key).cmp(&(b.key.len(), &b.key)));
     let mut fatal = std::mem::take(&mut *sh.fatal.lock().unwrap());
     fatal.extend(stats.machinery_errors.iter().cloned());
     let units_done = *sh.units_done.lock().unwrap();
